@@ -409,6 +409,9 @@ func (r *Run) finish(force int) {
 
 	if os.Getenv("VERIF_NO_EVIDENCE") == "" {
 		dir := filepath.Join(r.root, "evidence")
+		if d := os.Getenv("VERIF_EVIDENCE_DIR"); d != "" {
+			dir = d // scratch-copy runs (VERIF_REPO) must not overwrite the real evidence
+		}
 		_ = os.MkdirAll(dir, 0o755)
 		data, err := json.MarshalIndent(ev, "", " ")
 		if err != nil {
